@@ -328,7 +328,7 @@ Json EngineGen::generate(uint64_t seed, const runner::GenOptions& opt, const Eng
       Json c = Json::obj();
       c.set("kind", (int64_t)rng.range(1, 3)).set("n", (int64_t)rng.below(40)).set("yields", (int64_t)rng.below(30)).setb("twice", rng.chance(200));
       op.set("cancel", c);
-    } else if (db && rng.chance(250)) {
+    } else if (db && rng.chance(400)) {
       // one call of the BuildDB interface fails during this build (the engine's own seam: a client may attach any BuildDB):
       // the engine cancels the build from inside, with completions possibly queued up - it must still come back
       static const char* kinds[] = {"set_result", "set_result", "set_result", "lookup", "build_started", "set_iteration"};
